@@ -84,6 +84,18 @@ pub fn gen(rng: &mut Rng, _tier: Tier) -> Scn {
         _ => 1,
     };
     spec.fdt_carousel = CarouselSpec::DelayMs(if long { spec.fdt_duration_ms / 7 + 500 } else { *rng.pick(&[200u64, 1000]) });
+    // TOIs beyond 64 bits (the documented random start, a large configured start): listed and found like any other
+    if rng.chance(0.2) {
+        spec.toi_initial = Some(
+            match rng.below(4) {
+                0 => (1u128 << 64) - 2,
+                1 => (1u128 << 64) + rng.range(0, 1000) as u128,
+                2 => (1u128 << 100) + 7,
+                _ => (rng.next_u64() as u128) << 40,
+            }
+            .to_string(),
+        );
+    }
     let n = rng.range(1, 5) as usize;
     let mut objects = Vec::new();
     let mut ops = Vec::new();
@@ -101,6 +113,11 @@ pub fn gen(rng: &mut Rng, _tier: Tier) -> Scn {
         }
         if rng.chance(0.3) {
             o.groups = Some((0..rng.range(1, 3)).map(|k| format!("g{}-{}", k, rng.pick(&HOSTILE_STRINGS))).collect());
+        }
+        // an absolute cache expiry that is already past when the object is announced, or that passes during the run:
+        // the directive is the application's, it is announced unaltered by every instance
+        if rng.chance(0.12) {
+            o.cache = Some(CacheSpec::ExpiresAtMs(if rng.chance(0.5) { T0_MS - rng.range(1_000, 100_000_000) } else { T0_MS + rng.range(0, 20_000) }));
         }
         if rng.chance(0.5) {
             o.etag = Some(format!("{}{}", rng.pick(&HOSTILE_STRINGS), i));
@@ -519,6 +536,34 @@ pub fn run(scn: &Scn, ctx: &Ctx, scratch: &Path) {
                         violate(ctx, "C10/receiver-missed-fdt", "-", format!("FDT instance {} was completely emitted but flute's receiver never reported it", t.instance_id));
                     }
                 }
+            }
+        }
+        // ... every object whose packets follow a received instance that lists it (and is still valid then) is FOUND in
+        // that instance by flute's receiver: a writer is requested for it
+        for (i, toi) in trace.obj_toi.iter().enumerate() {
+            let toi = match toi {
+                Some(t) => *t,
+                None => continue,
+            };
+            let found = st.writers.iter().any(|w| w.toi == toi);
+            if found {
+                continue;
+            }
+            let listed_then_sent = txs.iter().any(|t| {
+                let lists = t.doc.as_ref().map(|d| d.files.iter().any(|f| f.toi == toi)).unwrap_or(false);
+                let expires_us = t.doc.as_ref().and_then(|d| d.expires).map(|e| e.saturating_sub(NTP_OFFSET) * 1_000_000).unwrap_or(0);
+                match (lists, t.complete_at, &t.error) {
+                    (true, Some(c), None) => seen.contains(t.xml.as_deref().unwrap_or(&[])) && trace.pkts.iter().any(|p| p.dec.toi == toi && p.idx > c && p.t_us + 2_000_000 < expires_us),
+                    _ => false,
+                }
+            });
+            if listed_then_sent {
+                violate(
+                    ctx,
+                    "C10/receiver-does-not-find-listed-object",
+                    "-",
+                    format!("object {} TOI={}: flute's receiver got an instance listing it, packets of the object followed while the instance was valid, yet no writer was ever requested for it", i, toi),
+                );
             }
         }
         // ... and the metadata flute's receiver hands to the application for each object is what the sender was given
